@@ -436,6 +436,34 @@ fn check_node(n: &Zoo, ctx: &str, fails: &mut Vec<Fail>, evals: &mut u64) -> Opt
             }
         }
     }
+    // refresh_private once more on a copy of the node in which the first free slot is spelled exactly like the slot the
+    // NEXT Slot::fresh() of this thread would hand out (a legal public name): the new bound names must avoid it
+    {
+        let free: BTreeSet<Slot> = an.free.iter().copied().collect();
+        let bound_set: BTreeSet<Slot> = an.bound.iter().copied().collect();
+        if !free.is_empty() && !bound_set.is_empty() && free.is_disjoint(&bound_set) {
+            let probe = Slot::fresh().to_string();
+            let k: u64 = probe.trim_start_matches("$f").parse().expect("fresh slots print as $f<n>");
+            let target = Slot::named(&format!("f{}", k + 1));
+            let first = an.free[0];
+            let ren: SlotMap = free.iter().map(|s| (*s, if *s == first { target } else { *s })).collect();
+            if let Ok(n2) = catch(|| n.apply_slotmap(&ren)) {
+                let (v2, f2) = read_back(&n2);
+                let an2 = analyse(v2, &f2);
+                match catch(|| n2.refresh_private()) {
+                    Err(site) => fails.push(("panic".into(), format!("refresh_private (free slot spelled like the next fresh one) {ctx}"), site)),
+                    Ok(r) => {
+                        let (rv, rf) = read_back(&r);
+                        let ran = analyse(rv, &rf);
+                        let old: BTreeSet<Slot> = an2.all.iter().copied().collect();
+                        if ran.canon_bound_only != an2.canon_bound_only || ran.bound.iter().any(|s| old.contains(s)) {
+                            fails.push(("refresh-private".into(), format!("refresh_private on a node whose free slot is spelled like the next fresh slot {ctx}"), format!("{n2:?} becomes {r:?}")));
+                        }
+                    }
+                }
+            }
+        }
+    }
     // shape
     let (sh, bij) = match catch(|| n.weak_shape()) {
         Ok(x) => x,
@@ -520,7 +548,7 @@ impl Prop for ShapesProp {
         vec!["shadowing_free_left_of_binder", "shadowing_free_right_of_binder", "repeated_free_slot", "equivalent_pair_with_different_names", "inequivalent_pair"]
     }
     fn rule(&self) -> String {
-        "For a zoo language produced by define_language! (plain slots, Bind<AppliedId>, Bind<Bind<..>>, Bind before/after a free child, Bind<Slot>, slot next to a binder, payload types u32/i64/bool/char/Symbol, nullary): every variant template x every assignment of its slot positions from a pool of 4 (thorough 5) names x three name->slot schemes. Each node is judged against an independent scoping-aware analysis of its structural read-back: occurrence lists by position, public/private partition, slots(), to_syntax/from_syntax, weak_shape (renaming-equivalent to the node, bijection onto the node's free slots, apply_slotmap(bij) gives the node back up to bound names, idempotent), refresh_private (same node up to bound names, all bound names new), apply_slotmap with an injective renaming (renames exactly the free occurrences). All pairs of nodes of a template: shapes equal iff canonical forms (free names by first occurrence, bound names by binder order) are equal. Non-trivial = node with at least one slot.".into()
+        "For a zoo language produced by define_language! (plain slots, Bind<AppliedId>, Bind<Bind<..>>, Bind before/after a free child, Bind<Slot>, slot next to a binder, payload types u32/i64/bool/char/Symbol, nullary): every variant template x every assignment of its slot positions from a pool of 4 (thorough 5) names x three name->slot schemes. Each node is judged against an independent scoping-aware analysis of its structural read-back: occurrence lists by position, public/private partition, slots(), to_syntax/from_syntax, weak_shape (renaming-equivalent to the node, bijection onto the node's free slots, apply_slotmap(bij) gives the node back up to bound names, idempotent), refresh_private (same node up to bound names, all bound names new; also on a copy whose first free slot is spelled like the next fresh slot), apply_slotmap with an injective renaming (renames exactly the free occurrences). All pairs of nodes of a template: shapes equal iff canonical forms (free names by first occurrence, bound names by binder order) are equal. Non-trivial = node with at least one slot.".into()
     }
     fn assumptions(&self) -> Vec<String> {
         vec!["AppliedId children carry bijective maps (an invariant of the crate), so slot names inside one child are distinct".into()]
